@@ -7,6 +7,10 @@ LEAN = os.path.join(os.path.dirname(HERE), "lean")
 NOT_YET = {
     "C01": ["the hand-unrolled sqlite3 chained reader is modelled by its format-level reader (agreement with the C is sampled by the correspondence, not proved)"],
     "C04": ["uniqueness-in-length-class / shortest-encoding stated on the decoder for chained, chained-simple and the split families (tagged has tagged_canonical); Elias gamma/delta bit definitions (carried with the Elias model under C02)"],
+    "C02": ["group, dictionary, Elias gamma/delta, BP128 (4 forms), PFOR round trips; RLE-with-header; FOR block reader, RLE/PFOR/group random access: model = code on the correspondence stream and the monitors check the implementation, theorem not yet written"],
+    "C03": ["group/dict exactness, Elias, BP128, PFOR, adaptive, float bounds: monitors + correspondence only so far"],
+    "C13": ["group, dict, RLE-with-header, Elias, BP128, adaptive capacity theorems: monitors + correspondence only so far"],
+    "C16": ["PFOR, group, Elias, BP128, adaptive, float metadata: monitors + correspondence only so far"],
     "C05": [],
     "C12": [],
 }
